@@ -12,16 +12,16 @@ IMPL_FIGURE_COLOR_OWN_LINE = True
 JUDGE = ["C17_WellFormed", "C17_Pages", "C17_Geometry", "C17_Single", "C17_Empty", "C17_Missing", "C17_Outcome"]
 B = {False, True}
 GEN = {
-    "quick": [dict(name="upto2", consts=dict(MaxFiles=2, Kinds={"table", "figure"}, PageSet={1, 2}, ColorSet=B, HFSet=B, MissingSet={False}, LandSet={False}, TailSet={"none", "para"})),
-              dict(name="missing", consts=dict(MaxFiles=2, Kinds={"table"}, PageSet={1}, ColorSet={False}, HFSet={False}, MissingSet=B, LandSet={False}, TailSet={"none"})),
-              dict(name="sim6", consts=dict(MaxFiles=6, Kinds={"table", "figure"}, PageSet={1, 2, 3}, ColorSet=B, HFSet=B, MissingSet={False}, LandSet=B, TailSet={"none", "para"}), simulate=250)],
-    "thorough": [dict(name="upto3", consts=dict(MaxFiles=3, Kinds={"table", "figure"}, PageSet={1, 2}, ColorSet=B, HFSet=B, MissingSet={False}, LandSet={False}, TailSet={"none"})),
-                 dict(name="land2", consts=dict(MaxFiles=2, Kinds={"table", "figure"}, PageSet={1, 3}, ColorSet=B, HFSet={False}, MissingSet={False}, LandSet=B, TailSet={"none", "para"})),
-                 dict(name="missing", consts=dict(MaxFiles=3, Kinds={"table"}, PageSet={1}, ColorSet={False}, HFSet={False}, MissingSet=B, LandSet={False}, TailSet={"none"})),
-                 dict(name="sim6", consts=dict(MaxFiles=6, Kinds={"table", "figure"}, PageSet={1, 2, 3}, ColorSet=B, HFSet=B, MissingSet={False}, LandSet=B, TailSet={"none", "para"}), simulate=5000)],
+    "quick": [dict(name="upto2", consts=dict(MaxFiles=2, Kinds={"table", "figure"}, PageSet={1, 2}, ColorSet=B, HFSet=B, MissingSet={False}, LandSet={False}, TailSet={"none", "para"}, EnvSet={False, True})),
+              dict(name="missing", consts=dict(MaxFiles=2, Kinds={"table"}, PageSet={1}, ColorSet={False}, HFSet={False}, MissingSet=B, LandSet={False}, TailSet={"none"}, EnvSet={False})),
+              dict(name="sim6", consts=dict(MaxFiles=6, Kinds={"table", "figure"}, PageSet={1, 2, 3}, ColorSet=B, HFSet=B, MissingSet={False}, LandSet=B, TailSet={"none", "para"}, EnvSet={False, True}), simulate=250)],
+    "thorough": [dict(name="upto3", consts=dict(MaxFiles=3, Kinds={"table", "figure"}, PageSet={1, 2}, ColorSet=B, HFSet=B, MissingSet={False}, LandSet={False}, TailSet={"none"}, EnvSet={False})),
+                 dict(name="land2", consts=dict(MaxFiles=2, Kinds={"table", "figure"}, PageSet={1, 3}, ColorSet=B, HFSet={False}, MissingSet={False}, LandSet=B, TailSet={"none", "para"}, EnvSet={False, True})),
+                 dict(name="missing", consts=dict(MaxFiles=3, Kinds={"table"}, PageSet={1}, ColorSet={False}, HFSet={False}, MissingSet=B, LandSet={False}, TailSet={"none"}, EnvSet={False})),
+                 dict(name="sim6", consts=dict(MaxFiles=6, Kinds={"table", "figure"}, PageSet={1, 2, 3}, ColorSet=B, HFSet=B, MissingSet={False}, LandSet=B, TailSet={"none", "para"}, EnvSet={False, True}), simulate=5000)],
 }
-MODEL = {"quick": dict(MaxFiles=2, Kinds={"table", "figure"}, PageSet={1, 2}, ColorSet=B, HFSet=B, MissingSet=B, LandSet={False}, TailSet={"none"}),
-         "thorough": dict(MaxFiles=3, Kinds={"table", "figure"}, PageSet={1, 2}, ColorSet=B, HFSet=B, MissingSet={False}, LandSet={False}, TailSet={"none"})}
+MODEL = {"quick": dict(MaxFiles=2, Kinds={"table", "figure"}, PageSet={1, 2}, ColorSet=B, HFSet=B, MissingSet=B, LandSet={False}, TailSet={"none"}, EnvSet={False}),
+         "thorough": dict(MaxFiles=3, Kinds={"table", "figure"}, PageSet={1, 2}, ColorSet=B, HFSet=B, MissingSet={False}, LandSet={False}, TailSet={"none"}, EnvSet={False})}
 INV = ["Balanced", "PagesInOrder", "NewPageAndGeometry", "SingleUnchanged", "EmptyWritesNothing", "MissingRaises"]
 KEEP = {"sig", "coloropen", "fontend_coloropen", "colorentry", "hdr", "ftr", "newpage"}
 
@@ -41,7 +41,7 @@ def _judge(ctx, work, recs):
                     ctx.known_finding(f["id"], f["text"])
                 continue
             ctx.violation("%s fails for inputs %s (page %d)" % (cl, json.dumps([[f["kind"], "colour" if f["color"] else "", "hf" if f["hf"] else "", f["pages"]] for f in r["files"]]), min(ats)),
-                          {"clause": cl, "at": min(ats), "scenario": {"files": r["files"]}, "observed": {k: v for k, v in r["c"].items() if k != "inputs"},
+                          {"clause": cl, "at": min(ats), "scenario": {"files": r["files"], "env": r.get("env") or {}}, "observed": {k: v for k, v in r["c"].items() if k != "inputs"},
                            "pages": r["ev"][:12]})
 
 
@@ -51,7 +51,7 @@ def run(pid, tier, seed, replay=None):
     try:
         if replay:
             rp = json.load(open(replay))
-            rec = assemble.run_one({"id": 0, "files": rp["scenario"]["files"]})
+            rec = assemble.run_one({"id": 0, "files": rp["scenario"]["files"], "env": rp["scenario"].get("env") or {}})
             _judge(ctx, work, [rec])
             ctx.note_case("a", True); ctx.note_case("b", True); ctx.sample({"replayed": replay}); ctx.rule = "replay"
             return ctx.finish()
@@ -73,11 +73,11 @@ def run(pid, tier, seed, replay=None):
                 got = family.generate(ctx, work, "Assemble", consts, g["name"])
                 ctx.extra.setdefault("exhaustive_families_replayed_whole", {})[g["name"]] = len(got)
             for s in got:
-                key = json.dumps(s["files"], sort_keys=True)
+                key = json.dumps([s["files"], s.get("env")], sort_keys=True)
                 if key in seen:
                     continue
                 seen.add(key)
-                items.append({"id": len(items), "files": s["files"], "pred": s})
+                items.append({"id": len(items), "files": s["files"], "env": s.get("env") or {}, "pred": s})
         recs = pmap(assemble.run_one, items, chunk=4)
         _judge(ctx, work, recs)
         nd = 0
